@@ -184,7 +184,7 @@ theorem findSlot_removeSlot (id : Nat) (l : List (Nat × Slot)) (j : Nat) :
     · subst hk
       simp only [bne_self_eq_false, Bool.false_eq_true, if_false, List.find?_cons]
       by_cases hj : j = k
-      · subst hj; simpa using ih
+      · subst hj; simp at ih ⊢; try exact ih
       · have : (k == j) = false := by simp; exact fun h => hj h.symm
         simp only [this]
         simpa [hj] using ih
@@ -194,7 +194,7 @@ theorem findSlot_removeSlot (id : Nat) (l : List (Nat × Slot)) (j : Nat) :
       · subst hj
         have : (k == j) = false := by simpa using hk
         simp only [this]
-        simpa using ih
+        (simp at ih ⊢; try exact ih)
       · by_cases hkj : k = j
         · simp [hkj, hj]
         · have : (k == j) = false := by simpa using hkj
@@ -275,7 +275,7 @@ macro "inv_facts" : tactic =>
     have hidm : ∀ g fu, findFut s.futs g = some fu → fu.id ∈ s.sent := fun g fu h => c4 ▸ findFut_id_mem h
     have hfidm : ∀ g fu, findFut s.futs g = some fu → g < s.nextFid := fun g fu h => c3 g (findFut_fid_mem h)))
 
-macro "inv_close" : tactic => `(tactic| (first | assumption | grind | (trace_state; sorry)))
+macro "inv_close" : tactic => `(tactic| (first | assumption | grind))
 
 set_option hygiene false in
 /-- take a `Hold s f` apart; the hold clause is specialised to `f` -/
